@@ -263,10 +263,16 @@ func runC02(c *eng.Ctx) {
 			g1, w := eng.GuardedBy(fn, st, newer)
 			g2, _ := eng.GuardedBy(fn, st, later)
 			c.Check(g1 && g2 && len(newer) > 0 && len(later) > 0, "epoch boundary appended only for a newer epoch at a later offset", c.Pos(st), "epoch > latestEpoch ∧ offset >= latestOffset", "an epoch boundary can be appended out of order (path "+w.String()+")")
+			exact := eng.ExactCmp(fn, eng.Param("epoch"), eng.Call(-1, cl+"leaderEpochCache.latestEpoch"), eng.GT) && eng.ExactCmp(fn, eng.Param("offset"), eng.Call(-1, cl+"leaderEpochCache.latestOffset"), eng.GE)
+			c.Check(exact, "epoch boundary accepted exactly on epoch > latest ∧ offset >= latest", c.Pos(st), "the tests are `epoch > latestEpoch` and `offset >= latestOffset`", "the acceptance test of assign is stricter than `epoch > latestEpoch ∧ offset >= latestOffset`: a new leader that takes over without new messages (same offset) cannot record its epoch, so followers cannot find where the previous epoch ended")
 		}
 		if n == 0 {
 			c.Unresolved("store to epochOffsets in assign")
 		}
+	}
+	if fn := c.Fn(cl + "(*leaderEpochCache).ClearLatest"); fn != nil {
+		keep := eng.ExactCmp(fn, eng.LoadNamed("startOffset", nil), eng.Param("offset"), eng.LT)
+		c.Check(keep, "truncation drops epochs starting at or after the offset", p.Pos(fn.Pos()), "an epoch entry is kept exactly on startOffset < offset", "ClearLatest does not keep exactly the epochs with startOffset < offset: after a truncation the epoch history names offsets that no longer exist (or forgets one that does)")
 	}
 	eo := p.Field(clPkg, "leaderEpochCache", "epochOffsets")
 	for _, a := range eng.StoresToField(p, eo, true) {
